@@ -18,7 +18,9 @@ func genMeta(rng *h.Rng, prefix string) http.Header {
 	out := http.Header{}
 	nk := 1 + rng.Intn(6)
 	for i := 0; i < nk; i++ {
-		key := fmt.Sprintf("%s-%s%d", prefix, []string{"Key", "Alpha", "Z", "Multi-Part-Name"}[rng.Intn(4)], rng.Intn(3))
+		// plain names, and names that merely CONTAIN what the protocols treat as a prefix
+		// ("Trailer-", "Grpc-", "Connect-") somewhere after their start
+		key := fmt.Sprintf("%s-%s%d", prefix, []string{"Key", "Alpha", "Z", "Multi-Part-Name", "Trailer-Id", "Has-Trailer-Sum", "Grpc-Status", "Connect-Timeout-Ms", "Content-Type", "Trailer"}[rng.Intn(10)], rng.Intn(3))
 		bin := rng.Intn(4) == 0
 		if bin {
 			key += "-Bin"
